@@ -23,6 +23,9 @@ pub enum ChurnOp {
     /// log channel: subscribe for old+new (joined) / old+new (split pair) and drive the stream(s)
     AddOldAndNew,
     AddSplit,
+    /// drop the first of the listeners created before the sends (the lowest stream id: every other entry of the live
+    /// list moves when it goes)
+    DropFirst,
 }
 
 #[derive(Clone, Debug, Serialize, Deserialize)]
@@ -98,23 +101,31 @@ pub fn multi_body(p: &MultiParams, flush_and_end: bool, check_capacity: bool) ->
         shared.lock().unwrap().events.push(Ev { thread: 0, kind: EvKind::SendOp(Entry::Send), id, inv, ret, accepted, ended: false, intact: true, setter_invoked_on_reject: false, addr: 0, wakes_delivered: 0, wake_misses: 0 });
     }
     let mut handles = vec![];
+    let first_listener: Arc<HLock<Option<shuttle::thread::JoinHandle<()>>>> = Arc::new(HLock::new(None));
     let n_prod = p.producers.len();
+    let drops_first = p.churn.contains(&ChurnOp::DropFirst);
     for l in 0..p.listeners {
         let inv = ctx::stamp();
         let stream = ch.create_stream();
         let ret = ctx::stamp();
         let d = harness::new_driver();
         let thread_no = 100 + l;
-        listeners.lock().unwrap().push(ListenerRec { thread_no, driver: d, throughout: true, how: Subscribe::New, old_half: false, created: (inv, ret), removed: None });
+        listeners.lock().unwrap().push(ListenerRec { thread_no, driver: d, throughout: !(drops_first && l == 0), how: Subscribe::New, old_half: false, created: (inv, ret), removed: None });
         let shared2 = Arc::clone(&shared);
         let cfg = DriverCfg { hold: p.hold, spurious_poll: p.spurious_poll, waker_churn: p.waker_churn };
-        handles.push(shuttle::thread::spawn(move || driver_thread(stream, shared2, d, thread_no, cfg)));
+        let h = shuttle::thread::spawn(move || driver_thread(stream, shared2, d, thread_no, cfg));
+        if drops_first && l == 0 {
+            *first_listener.lock().unwrap() = Some(h);
+        } else {
+            handles.push(h);
+        }
     }
     // the churn thread
     let churn_handle = if p.churn.is_empty() {
         None
     } else {
         let (ch2, shared2, listeners2, ops, hold) = (Arc::clone(&ch), Arc::clone(&shared), Arc::clone(&listeners), p.churn.clone(), p.hold);
+        let first_listener2 = Arc::clone(&first_listener);
         Some(shuttle::thread::spawn(move || {
             let mut own: Vec<(usize, shuttle::thread::JoinHandle<()>)> = vec![];
             let mut next_no = 200;
@@ -143,6 +154,21 @@ pub fn multi_body(p: &MultiParams, flush_and_end: bool, check_capacity: bool) ->
                             let shared3 = Arc::clone(&shared2);
                             let cfg = DriverCfg { hold, spurious_poll: 0, waker_churn: false };
                             own.push((thread_no, shuttle::thread::spawn(move || driver_thread(stream, shared3, d, thread_no, cfg))));
+                        }
+                    }
+                    ChurnOp::DropFirst => {
+                        let h = first_listener2.lock().unwrap().take();
+                        if let Some(h) = h {
+                            let d = listeners2.lock().unwrap().iter().find(|l| l.thread_no == 100).map(|l| l.driver).unwrap();
+                            let inv = ctx::stamp();
+                            harness::stop_driver(d);
+                            let _ = h.join();
+                            let ret = ctx::stamp();
+                            ctx::fault_fired("listener_churn");
+                            ctx::trace(|| "churn: dropped the first listener (t100)".to_string());
+                            if let Some(l) = listeners2.lock().unwrap().iter_mut().find(|l| l.thread_no == 100) {
+                                l.removed = Some((inv, ret));
+                            }
                         }
                     }
                     ChurnOp::DropOwn => {
@@ -274,6 +300,9 @@ pub fn multi_body(p: &MultiParams, flush_and_end: bool, check_capacity: bool) ->
         harness::stop_driver(d);
     }
     for h in handles {
+        let _ = h.join();
+    }
+    if let Some(h) = first_listener.lock().unwrap().take() {
         let _ = h.join();
     }
     for (_, h) in churn_own {
@@ -668,6 +697,9 @@ impl Scenario for C04Multi {
 pub struct C17;
 impl Scenario for C17 {
     multi_scenario_common!();
+    fn key_context(&self, p: &MultiParams) -> String {
+        format!("{}/{}/", if p.churn.contains(&ChurnOp::DropFirst) { "lowest_id_removed" } else { "tail_churn" }, p.kind.name())
+    }
     fn property(&self) -> &'static str {
         "C17"
     }
@@ -683,6 +715,16 @@ impl Scenario for C17 {
             2 => vec![ChurnOp::Add, ChurnOp::DropOwn, ChurnOp::Add],
             _ => vec![ChurnOp::Add, ChurnOp::Add, ChurnOp::DropOwn],
         };
+        if p.kind != Kind::MultiMmapLog && rng.chance(1, 3) {
+            // the removed listener holds the lowest stream id: the live list is compacted under the senders' feet
+            p.listeners = 3;
+            p.churn = match rng.below(3) {
+                0 => vec![ChurnOp::DropFirst],
+                1 => vec![ChurnOp::DropFirst, ChurnOp::Add],
+                _ => vec![ChurnOp::Add, ChurnOp::DropFirst],
+            };
+            return p;
+        }
         if p.listeners == 3 {
             p.churn.retain(|_| true);
             // MAX_STREAMS is 4: never more than one churn listener alive at a time
@@ -700,13 +742,16 @@ impl Scenario for C17 {
             if ctx::aborted() {
                 return;
             }
+            // the shape of the churn is part of every key: removing the listener with the lowest stream id moves every other
+            // entry of the live list, which is a different mechanism from churn at the tail of the list
+            let family = if p2.churn.contains(&ChurnOp::DropFirst) { "multi_churn/lowest_id_removed" } else { "multi_churn/tail_churn" };
             for l in data.listeners.iter() {
                 let mode = match (l.throughout, l.removed.is_some()) {
                     (true, _) => 0,
                     (false, false) => 1,
                     (false, true) => 3,
                 };
-                check_listener("C17", "multi_churn", &p2, &data, l, mode);
+                check_listener("C17", family, &p2, &data, l, mode);
             }
             if let Some((accepted, one_more, after_reuse)) = data.capacity_after {
                 if accepted as usize != p2.buffer || one_more {
@@ -714,7 +759,7 @@ impl Scenario for C17 {
                         Some(n) if n as usize == p2.buffer => "storage_held_until_stream_id_reuse",
                         _ => "storage_leaked",
                     };
-                    ctx::report("C17", how, format!("multi_churn/{}/{}", p2.kind.name(), how), format!("after everything was consumed and every handle released, {} of {} sends were accepted (and a further one: {}); after every stream id had been handed out again: {:?}", accepted, p2.buffer, one_more, after_reuse));
+                    ctx::report("C17", how, format!("{}/{}/{}", family, p2.kind.name(), how), format!("after everything was consumed and every handle released, {} of {} sends were accepted (and a further one: {}); after every stream id had been handed out again: {:?}", accepted, p2.buffer, one_more, after_reuse));
                 }
             }
         }))
